@@ -14,6 +14,7 @@ import PgModel.HyperSpec
 import PgProofs.Hyper
 import PgProofs.HyperEnum
 import PgProofs.HyperDist
+import PgProofs.HyperSound
 namespace Pg.C13
 
 /-! ## Decode -/
@@ -148,6 +149,11 @@ theorem C13_iter_count (W : Nat → Bool) (t : Tmpl) (n : Nat)
 
 /-! ## Encode of arbitrary values (beyond the property text) -/
 
+/-- `pg.List([2, pg.oneof([6, 7])])`; the value `[2.0, 7]` is encoded (2 == 2.0) to `DNA(1)`. -/
+def tNestedSound : Tmpl :=
+  .node .list [.const (.int 2), .choice 1 true 1 [.const (.int 6), .const (.int 7)] true false]
+
+
 /-- `encode t v = ok d → d` is valid — not demanded by the property, and false on the code:
 `Choices.encode` does not check the `distinct` / `sorted` constraints. -/
 def C13_encode_sound_Full : Prop :=
@@ -163,6 +169,21 @@ theorem C13_encode_sound_counterexample : ¬ C13_encode_sound_Full := by
     (.mk none [.mk (some (.idx 0)) [], .mk (some (.idx 0)) []]) (by decide) (by rfl)
   revert this
   decide
+
+/-- The positive part (every template, filter and value, no distinguishability needed): whatever
+`encode` returns is a DNA object, and **if it is valid** it decodes to a value equal (Python `==`:
+structural, `1 == 1.0` at the leaves) to the encoded one. The excluded case is exactly the one of the
+counterexample above (`validG … d = false`, decidable). -/
+theorem C13_encode_sound_partial (W : Nat → Bool) (t v : Tmpl) (d : DNA)
+    (henc : encode W t v = .ok d) :
+    nfD d = true ∧
+    (validG (dnaSpec W t) d = true → ∃ v', decode W t d = .ok v' ∧ eqvT v' v = true) :=
+  EsD_all W t v d henc
+
+example : encode noFilter tTwoFloats (.node (.dict ["a", "b"]) [.const (.flt ⟨1, 1⟩), .const (.int 1)]) =
+    .error .value := by rfl      -- the int 1 is not a float: rejected, as `Float.encode` does
+example : ∃ d, encode noFilter tNestedSound (.node .list [.const (.flt ⟨2, 0⟩), .const (.int 7)]) = .ok d ∧
+    validG (dnaSpec noFilter tNestedSound) d = true := ⟨_, rfl, by decide⟩
 
 /-! ## Non-vacuity -/
 
